@@ -14,6 +14,7 @@ def errStr : Err → String
   | .wrapped i => s!"w{i}"
   | .reported i => s!"r{i}"
   | .notInit => "ni"
+  | .reportedText => "rt"
 
 def errOptStr : Option Err → String
   | none => "-"
@@ -24,6 +25,7 @@ def parseErr (s : String) : Option Err :=
   | 'c' :: r => Err.cancelled <$> (String.ofList r).toNat?
   | 'x' :: r => Err.exc <$> (String.ofList r).toNat?
   | 'w' :: r => Err.wrapped <$> (String.ofList r).toNat?
+  | ['r', 't'] => some .reportedText
   | 'r' :: r => Err.reported <$> (String.ofList r).toNat?
   | ['n', 'i'] => some .notInit
   | _ => none
@@ -58,6 +60,7 @@ def parseOp : List String → Option Op
   | ["nestedUnknown"] => some (.nestedUnknown true)
   | ["fsmSelfUnknown"] => some (.nestedUnknown false)
   | ["ctrlAbort", i] => Op.ctrlAbort <$> i.toNat?
+  | ["ctrlAbortText"] => some .ctrlAbortText
   | ["ctrlShutdown"] => some .ctrlShutdown
   | ["armCalc", i] => (fun n => Op.armCalc (.calc n)) <$> i.toNat?
   | ["armCalcHandler", i, f] => do pure (.armCalc (.calcHandler (← i.toNat?) (← parseFamily f)))
